@@ -36,6 +36,7 @@ __all__ = ['DataReader']
 
 fullline_pattern = re.compile(br'.*\n')
 eod_pattern = re.compile(br'^\.\s*?\n$')
+partial_eod_pattern = re.compile(br'^(\.\s*)?$')
 endl_pattern = re.compile(br'\r?\n$')
 
 
@@ -57,8 +58,13 @@ class DataReader(object):
         self.EOD = None
         self.lines = [b'']
         self.i = 0
+        self.too_big = False
 
     def _append_line(self, line):
+        # Only message data counts against the size limit, not the
+        # end-of-data line or pipelined commands that follow it.
+        if self.EOD is None:
+            self.size += len(line)
         if len(self.lines) <= self.i:
             self.lines.append(line)
         else:
@@ -80,6 +86,7 @@ class DataReader(object):
             # Check for the End-Of-Data marker.
             if eod_pattern.match(line):
                 self.EOD = i
+                self.size -= len(line)
 
             # Remove an initial period on non-EOD lines as per RFC 821 4.5.2.
             elif line[0:1] == b'.':  # line[0] is an integer
@@ -103,13 +110,24 @@ class DataReader(object):
         if piece == b'':
             raise ConnectionLost()
 
-        self.size += len(piece)
-        if self.max_size and self.size > self.max_size:
-            self.EOD = self.i
+        self.add_lines(piece)
+        self._check_size()
+        return not self.EOD
+
+    def _check_size(self):
+        if self.max_size and self.size > self.max_size and not self.too_big:
+            self.too_big = True
             raise MessageTooBig()
 
-        self.add_lines(piece)
-        return not self.EOD
+    def _discard_data(self):
+        # The message is too big, but the rest of it must still be read up to
+        # the end-of-data line, otherwise it would be parsed as commands. Only
+        # keep what is needed to recognize that line.
+        if self.EOD is None:
+            del self.lines[:self.i]
+            self.i = 0
+            if self.lines and not partial_eod_pattern.match(self.lines[0]):
+                self.lines[0] = b'x'
 
     def return_all(self):
         assert self.EOD is not None
@@ -129,9 +147,23 @@ class DataReader(object):
 
         """
         self.from_recv_buffer()
-        while self.recv_piece():
-            pass
-        return self.return_all()
+        too_big = None
+        try:
+            self._check_size()
+        except MessageTooBig as exc:
+            too_big = exc
+        while True:
+            if too_big is not None:
+                self._discard_data()
+            try:
+                if not self.recv_piece():
+                    break
+            except MessageTooBig as exc:
+                too_big = exc
+        data = self.return_all()
+        if too_big is not None:
+            raise too_big
+        return data
 
 
 # vim:et:fdm=marker:sts=4:sw=4:ts=4
